@@ -825,8 +825,9 @@ int main(int argc, char **argv) {
     if (prop == "C11" || prop == "C12") {
         unsigned variants = 2;
         // every 30th random graph has 25-130 vertices and one or two hubs (BFS levels of 48 and more, queues longer than 64)
-        SpecSpace sd(true, thorough ? 4 : 3, (uint64_t)R.args.geti("random", thorough ? 60000 : 3000), 4, 14, 30, 130);
-        SpecSpace su(false, thorough ? 5 : 4, (uint64_t)R.args.geti("random", thorough ? 60000 : 3000), 4, 14, 30, 130);
+        uint64_t nrandom = (uint64_t)R.args.geti("random", thorough ? (prop == "C12" ? 200000 : 60000) : 3000);
+        SpecSpace sd(true, thorough ? 4 : 3, nrandom, 4, 14, 30, 130);
+        SpecSpace su(false, thorough ? 5 : 4, nrandom, 4, 14, 30, 130);
         uint64_t nfam = thorough ? 1200 : 240;
         uint64_t total = (sd.count() + su.count()) * variants + nfam;
         if (R.args.mode == "count") {
@@ -889,8 +890,8 @@ int main(int argc, char **argv) {
             if (idx % 499 == 7 && R.samples.size() < 5) R.sample("{\"graph\": " + q(curDesc) + "}");
         });
     } else if (prop == "C19") {
-        uint64_t nfam = thorough ? 12000 : 1200;
-        uint64_t nrand = thorough ? 60000 : 2400;
+        uint64_t nfam = thorough ? 60000 : 1200;
+        uint64_t nrand = thorough ? 240000 : 2400;
         uint64_t total = nfam + nrand;
         if (R.args.mode == "count") {
             printf("%llu\n", (unsigned long long)total);
